@@ -306,6 +306,11 @@ def build_launches(seed, count):
         #  in source text, so the flagged variants are not generated)
         for fl in ([],):
             launches.append({"kind": "valid", "sources": [{"name": "nul.pl", "text": "z('a\x00b').\n", "via": "file"}], "flags": fl, "out": "stdout"})
+        # the same source given more than once: its code is written once per occurrence, in the order given
+        rep_a = {"name": "rep_a.pl", "text": "a(1).\na(X) :- b(X).\n", "via": "file"}
+        rep_b = {"name": "rep_b.pl", "text": "b(2).\n", "via": "file"}
+        launches.append({"kind": "valid", "sources": [dict(rep_a), dict(rep_b), dict(rep_a)], "flags": [], "out": "stdout"})
+        launches.append({"kind": "valid", "sources": [dict(rep_b), dict(rep_b), dict(rep_a), dict(rep_b)], "flags": ["--debug-filename"], "out": "file"})
         # a semantic (non-syntax) refusal and a crash-type refusal
         launches.append({"kind": "invalid", "sources": [{"name": "ok.pl", "text": "p.\n", "via": "file"},
                                                         {"name": "ophead.pl", "text": "q.\n\n  a = b.\n", "via": "file"}], "flags": [], "out": "stdout"})
